@@ -291,19 +291,34 @@ def gen_space(repo, outdir, opts=None):
     for i, nme in enumerate(allnames):
         c.append('#define RULE_%s %d' % (nme, i + 1))
     # one attribution clause per IARF option, so that a failing site names its option; MAY_FORCE_ADD / MAY_WEAKEN_REMOVE
-    # are defined by the contract file (the exceptions the property allows)
-    cl = []
+    # are defined by the contract file (the exceptions the property allows).
+    # Rules with a recorded known deviation (contracts/C19/known_dev_rules.txt): their general clause is expected to fail
+    # and is checked by the sibling proof do_space_reach (macro ATTRIBUTION_ENSURES_KNOWN); in the main proof
+    # (ATTRIBUTION_ENSURES_MAIN) they get the strict clause = the same claim restricted to states outside the recorded
+    # deviation (KNOWN_DEV(id), defined by the contract file), so that a *different* violation of such a rule still fails.
+    kpath = os.path.join(os.path.dirname(os.path.dirname(os.path.abspath(__file__))), 'contracts', 'C19', 'known_dev_rules.txt')
+    known = [l.strip() for l in open(kpath) if l.strip() and not l.startswith('#')] if os.path.exists(kpath) else []
+
+    def general(i, nme):
+        return ('__CPROVER_ensures(g_rule_id == %d ==> (__CPROVER_return_value == optv_%s'
+                ' || (MAY_FORCE_ADD(%d) && __CPROVER_return_value == (optv_%s | 1))'
+                ' || (MAY_WEAKEN_REMOVE(%d) && optv_%s == 2 && __CPROVER_return_value == 0))) /* %s */' % (i + 1, nme, i + 1, nme, i + 1, nme, nme))
+    main, kn, sites_main, sites_known = [], [], [], []
     for i, nme in enumerate(allnames):
-        if nme in iarf:
-            cl.append('__CPROVER_ensures(g_rule_id == %d ==> (__CPROVER_return_value == optv_%s'
-                      ' || (MAY_FORCE_ADD(%d) && __CPROVER_return_value == (optv_%s | 1))'
-                      ' || (MAY_WEAKEN_REMOVE(%d) && optv_%s == 2 && __CPROVER_return_value == 0))) /* %s */' % (i + 1, nme, i + 1, nme, i + 1, nme, nme))
-    # the same clauses restricted to states outside every recorded known deviation (KNOWN_DEV(id), defined by the
-    # contract file): a *different* violation of a rule that has a known finding still fails one of these
+        if nme in iarf and nme not in known:
+            main.append(general(i, nme))
+            sites_main.append('rule=%s clause=general' % nme)
     for i, nme in enumerate(allnames):
-        if nme in iarf:
-            cl.append('__CPROVER_ensures((g_rule_id == %d && HAS_KNOWN_DEV(%d) && !KNOWN_DEV(%d)) ==> __CPROVER_return_value == optv_%s) /* strict: %s */' % (i + 1, i + 1, i + 1, nme, nme))
-    c.append('#define ATTRIBUTION_ENSURES \\\n' + ' \\\n'.join(cl))
+        if nme in iarf and nme in known:
+            main.append('__CPROVER_ensures((g_rule_id == %d && !KNOWN_DEV(%d)) ==> __CPROVER_return_value == optv_%s) /* strict: %s */' % (i + 1, i + 1, nme, nme))
+            sites_main.append('rule=%s clause=strict' % nme)
+            kn.append(general(i, nme))
+            sites_known.append('rule=%s clause=general' % nme)
+    c.append('#define ATTRIBUTION_ENSURES_MAIN \\\n' + ' \\\n'.join(main))
+    c.append('#define ATTRIBUTION_ENSURES_KNOWN \\\n' + ' \\\n'.join(kn))
+    import json
+    with open(os.path.join(outdir, 'space_sites.json'), 'w') as f:
+        json.dump({'main': sites_main, 'known': sites_known}, f)
     c.append('#define ALL_IARF_IN_RANGE (' + ' && '.join('OPT_RANGE_%s' % nme for nme in iarf) + ')')
     c.append('#endif')
     with open(os.path.join(outdir, 'space_c.h'), 'w') as f:
